@@ -120,12 +120,6 @@ def model (toks : List String) : String :=
     | none => "panic"
     | some b => hexOut b
 
-/-- the lines of an output: every chunk up to and including a LF (a last unterminated chunk is kept) -/
-def splitLines : (List Nat) → (List Nat) → List (List Nat)
-  | [], [] => []
-  | [], cur => [cur.reverse]
-  | c :: r, cur => if c = 10 then (10 :: cur).reverse :: splitLines r [] else splitLines r (c :: cur)
-
 mutual
 /-- the row with every time floored to a whole second (what `time.RFC3339` without the fraction can express) -/
 def truncTime : Value → Value
@@ -178,7 +172,7 @@ def judge (toks : List String) (out : List String) : String :=
     | [h] =>
       let bytes := if h == "-" then [] else hexBytes h
       if !allFit then "ok"   -- mixed ops are not generated; nothing is demanded when a row is ill-typed
-      else if isJson op.kind then judgeJsonLines op op.rows (splitLines bytes []) 0
+      else if isJson op.kind then judgeJsonLines op op.rows (Json.splitLines bytes []) 0
       else
         match Csv.decode bytes with
         | none => "bad output-is-not-csv"
